@@ -37,6 +37,15 @@ func FuzzVerifC12URI(f *testing.F) {
 			if len(r) < 9 || !strings.EqualFold(r[:9], "spiffe://") {
 				return
 			}
+			auth := r[9:]
+			if i := strings.IndexAny(auth, "/?#"); i >= 0 {
+				auth = auth[:i]
+			}
+			for _, ch := range []byte(auth) { // plain reg-name authorities only: net/url decodes escapes inside a host, the hand reader does not
+				if !(ch >= 'a' && ch <= 'z' || ch >= 'A' && ch <= 'Z' || ch >= '0' && ch <= '9' || ch == '.' || ch == '-' || ch == ':' || ch == '@') {
+					return
+				}
+			}
 		}
 		c := rec.NewCase()
 		defer c.GuardPanic(t, "C12/panic")
